@@ -62,6 +62,7 @@ class OpVal:
     def __init__(self, op: str, args: List[Any]):
         self.op = op
         self.args = args
+        self.expr = None  # the expression the op is attributed to (first argument of TealOp)
 
     def __repr__(self):
         return " ".join([self.op] + [str(a) for a in self.args])
@@ -635,7 +636,9 @@ class MiniEval:
                 opname = opname[3:]
             else:
                 raise AnalysisError(f"{self.where}: op of `{u(e)}` is not a literal Op member")
-            return OpVal(opname, args[2:])
+            ov = OpVal(opname, args[2:])
+            ov.expr = args[0]
+            return ov
         if isinstance(f, ast.Name):
             if f.id == "cast" and len(e.args) == 2:
                 return self.ev(e.args[1])
